@@ -72,6 +72,12 @@ RULE = (
     'thread optionally holds its own backend context meanwhile. Non-trivial: '
     'some get/bind is executed by a thread while another thread (or main) '
     'currently has a different backend, and at least one context was exited.')
+RULE += (
+    ' '
+    'Later widenings: a quarter of the fold cases run after an abandoned run of the same func'
+    'tion; a third call the function a second time with the same shared container whose entri'
+    'es were replaced; thread histories include deferred context entry and exits by BaseExcep'
+    'tion.')
 ASSUMPTIONS = [
     'client functions are pure jax functions of their arguments (traceable, '
     'shape-stable); within one call all clients have equally shaped client '
